@@ -15,6 +15,8 @@ RandSt(fm) == IF fm.nodes /\ Coin(25) THEN <<P("status", Pick1({"deprecated", "o
 RandCond(u_) == (IF Coin(8) THEN <<P("when", Pick1({"1 = 1", "../w = 'v'"}))>> ELSE <<>>)
 RandLeafExtra(u_) == (IF Coin(4) THEN <<P("default", Pick1({"d1", "d2"}))>> ELSE IF Coin(8) THEN <<P("mandatory", "true")>> ELSE <<>>)
                      \o (IF Coin(8) THEN <<P("must", Pick1({"1 = 1", "../w"}))>> ELSE <<>>)
+\* the leaf that the sampled deviation names carries several must statements
+RandW == <<P("must", "5 = 5"), P("must", "6 = 6"), P("must", "7 = 7")>>
 RECURSIVE RandNode(_, _, _, _), RandKids(_, _, _, _)
 \* gs: names of the groupings a uses may refer to, as <<prefix, name>> pairs
 RandNode(nm, d, gs, fm) ==
@@ -22,14 +24,17 @@ RandNode(nm, d, gs, fm) ==
   CASE k <= 3 -> << Leaf(nm, RandLeafExtra(0) \o RandCfg(0) \o RandIf(fm) \o RandSt(fm) \o RandCond(0)) >>
     [] k = 4 -> << LeafList(nm, RandCfg(0) \o (IF Coin(3) THEN <<P("min-elements", "1"), P("max-elements", "3")>> ELSE <<>>)) >>
     [] k \in {5, 6} -> << Cont(nm, (IF Coin(4) THEN <<P("presence", "p")>> ELSE <<>>) \o RandCfg(0) \o RandIf(fm) \o RandSt(fm) \o RandKids(nm, d - 1, gs, fm)) >>
-    [] k = 7 -> << St("list", <<nm>>, <<St("key", <<nm \o "k">>, <<>>), Leaf(nm \o "k", IF Coin(6) THEN <<P("config", "false")>> ELSE <<>>)>> \o RandCfg(0) \o RandIf(fm)
+    [] k = 7 -> << St("list", <<nm>>, <<St("key", <<nm \o "k">>, <<>>), Leaf(nm \o "k", (IF Coin(6) THEN <<P("config", "false")>> ELSE <<>>) \o RandIf(fm))>> \o RandCfg(0) \o RandIf(fm)
                                       \o (IF Coin(3) THEN <<St("unique", <<nm \o "u">>, <<>>), Leaf(nm \o "u", <<>>)>> ELSE <<>>) \o RandKids(nm, d - 1, gs, fm)) >>
     [] k = 8 -> << Choice(nm, RandCfg(0) \o (IF Coin(2) THEN <<P("default", nm \o "s")>> ELSE <<>>)
                                 \o <<Case(nm \o "c", RandKids(nm \o "c", d - 1, gs, fm)), Leaf(nm \o "s", RandCfg(0))>>) >>
     [] k \in {9, 10} /\ gs # {} ->
          LET g == Pick1(gs) IN << Uses(g[1], g[2], UseIf(fm) \o RandCond(0)
                                         \o (IF Coin(2) THEN <<Refine(<<"", g[2] \o "a">>, <<Pick1({P("description", "r"), P("config", "false"), P("default", "rd"), P("must", "2 = 2"), P("must", "3 = 3")})>>)>> ELSE <<>>)
-                                        \o (IF Coin(4) THEN <<Augment(<<"", g[2] \o "b">>, <<Leaf(nm \o "ua", RandCfg(0))>>)>> ELSE <<>>)) >>
+                                        \* (the augment may itself bring a uses, one level down; of the lowest grouping, which uses nothing, so that the nesting stays bounded)
+                                        \o (IF Coin(4) THEN <<Augment(<<"", g[2] \o "b">>, <<Leaf(nm \o "ua", RandCfg(0))>>
+                                                                 \o (IF Coin(2) THEN LET low == IF <<"", "gb1">> \in gs THEN <<"", "gb1">> ELSE <<"b", "gb1">>
+                                                                                     IN <<Cont(nm \o "uk", <<Uses(low[1], low[2], <<>>)>>)>> ELSE <<>>))>> ELSE <<>>)) >>
     [] OTHER -> << Leaf(nm, RandLeafExtra(0)) >>
 RandKids(nm, d, gs, fm) == RandNode(nm \o "a", d, gs, fm) \o RandNode(nm \o "b", d, gs, fm) \o (IF Coin(2) THEN RandNode(nm \o "c", d, gs, fm) ELSE <<>>)
 \* a grouping named g: first member ga is a leaf or leaf-like, second gb a container (so that refine/augment paths often exist)
@@ -52,14 +57,15 @@ RandCase(i, mode) ==
       subm == Submodule("as", "a", <<"b">>, <<gs1, Cont("s", RandKids("s", 1, {<<"", "gs1">>, <<"b", "gb1">>}, FS))>>
                           \o (IF Coin(2) THEN <<Augment(<<"a", "t1">>, <<Leaf("sx", RandCfg(0))>>)>> ELSE <<>>))
       moda == Module("a", <<"b">>, <<Include("as"), Feature("f1", IF Coin(2) THEN <<IfF("", "f2")>> ELSE <<>>), Feature("f2", IF Coin(4) THEN <<IfF("b", "g")>> ELSE <<>>), ga1, ga2,
-                                    Cont("t1", <<Leaf("w", <<>>)>> \o RandCfg(0) \o RandKids("t1", 2, pool, FA)),
+                                    Cont("t1", <<Leaf("w", RandW)>> \o RandCfg(0) \o RandKids("t1", 2, pool, FA)),
                                     Cont("t2", RandKids("t2", 2, pool, FA))>>
                                     \o (IF Coin(2) THEN RandNode("t3", 2, pool, FA) ELSE <<>>)
                                     \o (IF Coin(3) THEN <<Augment(<<"", "t2">>, UseIf(FA) \o <<Leaf("la", RandCfg(0))>>)>> ELSE <<>>))
       modc == Module("c", <<"a">>, <<Feature("fc", <<>>)>>
                      \o (IF Coin(2) THEN <<Augment(<<"a", "t1">>, (IF Coin(3) THEN <<IfF("", "fc")>> ELSE <<>>) \o (IF Coin(6) THEN <<P("status", "deprecated")>> ELSE <<>>) \o RandCond(0) \o <<Leaf("ca", RandCfg(0)), Cont("cb", <<Leaf("cc", <<>>)>>)>>)>> ELSE <<>>)
                      \o (IF Coin(2) THEN <<Augment(<<"a", "t2">>, <<Leaf("cd", IF Coin(8) THEN <<P("mandatory", "true")>> ELSE <<>>)>>)>> ELSE <<>>))
-      modd == Module("d", <<"a">>, IF mode = "C12" THEN <<>> ELSE IF Coin(2) THEN <<Deviation(<<"a", "t1", "a", "w">>, <<Deviate(Pick1({"add", "add", "add", "replace", "delete"}), <<Pick1({P("default", "dv"), P("config", "false"), P("mandatory", "true"), P("must", "3 = 3"), P("units", "u")})>>)>>)>>
+      modd == Module("d", <<"a">>, IF mode = "C12" THEN <<>> ELSE IF Coin(6) THEN <<Deviation(<<"a", "t1", "a", "w">>, <<Deviate("delete", <<Pick1(Range(RandW))>>)>>)>>
+                                   ELSE IF Coin(2) THEN <<Deviation(<<"a", "t1", "a", "w">>, <<Deviate(Pick1({"add", "add", "add", "replace", "delete"}), <<Pick1({P("default", "dv"), P("config", "false"), P("mandatory", "true"), P("must", "3 = 3"), P("units", "u")})>>)>>)>>
                                    ELSE IF Coin(2) THEN <<Deviation(<<"a", "t2">>, <<Deviate("not-supported", <<>>)>>)>> ELSE <<>>)
       feats == {<<"a", "f1">>, <<"a", "f2">>, <<"b", "g">>, <<"b", "h">>, <<"c", "fc">>}
   IN [m |-> <<modb, subm, moda, modc, modd>>, e |-> {f \in feats : Coin(2)}, alt |-> "none",
